@@ -2,6 +2,7 @@ package keeper
 
 import (
 	markettypes "github.com/SaoNetwork/sao/x/market/types"
+	nodetypes "github.com/SaoNetwork/sao/x/node/types"
 	ordertypes "github.com/SaoNetwork/sao/x/order/types"
 	sdk "github.com/cosmos/cosmos-sdk/types"
 )
@@ -20,9 +21,8 @@ func (k Keeper) HandleTimeoutOrder(ctx sdk.Context, orderId uint64) {
 		return
 	}
 
-	if uint64(ctx.BlockHeight())+order.Timeout >= order.CreatedAt+order.Duration {
-		return
-	}
+	// near the end of the order's life there is no time left for another attempt
+	nearEnd := uint64(ctx.BlockHeight())+order.Timeout >= order.CreatedAt+order.Duration
 
 	var timeoutShards []ordertypes.Shard
 	var uncompletedShards []uint64
@@ -51,6 +51,9 @@ func (k Keeper) HandleTimeoutOrder(ctx sdk.Context, orderId uint64) {
 
 	// all shard completes
 	if timeoutCount == 0 {
+		if nearEnd {
+			return
+		}
 		for _, shardId := range uncompletedShards {
 			k.order.RemoveShard(ctx, shardId)
 		}
@@ -64,10 +67,14 @@ func (k Keeper) HandleTimeoutOrder(ctx sdk.Context, orderId uint64) {
 	log.Debug("order timeout", "orderId", order.Id, "sps", sps)
 
 	// TODO: sp punishment?
-	randSp := k.node.RandomSP(ctx, timeoutCount, sps, int64(order.Size_))
+	var randSp []nodetypes.Node
+	if !nearEnd {
+		randSp = k.node.RandomSP(ctx, timeoutCount, sps, int64(order.Size_))
+	}
 
 	if len(randSp) == 0 {
-		if uint64(ctx.BlockHeight())-order.CreatedAt > MaxTries*order.Timeout {
+		// stalled shards are not re-assigned near the end of life: give the unfinished part up
+		if nearEnd || uint64(ctx.BlockHeight())-order.CreatedAt > MaxTries*order.Timeout {
 			if order.Status != ordertypes.OrderCompleted {
 				// order timeout , remove shard and cancel order
 				for _, shardId := range order.Shards {
